@@ -48,7 +48,7 @@ def write_evidence(pid, tier, seed, plan, results, zresults, discharged, violati
             "solver_time_s": round(solver_s, 1),
             "outside_bounds": plan.outside,
             "harnesses": hs,
-            "smt_queries": zresults,
+            "smt_queries": [{k: v for k, v in z.items() if k != "confirm"} for z in zresults],
             "inconclusive": inconclusive,
             "known_findings_hit": [k["id"] for k, _ in known_hits],
         },
